@@ -2,6 +2,7 @@
 one event per call with the outcome and the full projection (states, S0, transitions, labels,
 identities of the label sets) of every pooled object.  TraceKripke.tla judges the events."""
 import random
+from common import exc_name
 
 import pymc
 from pymc import NAMINGS
@@ -106,7 +107,7 @@ def run_behaviour(b):
         except (KeyboardInterrupt, SystemExit, MemoryError):
             raise
         except BaseException as ex:
-            out = {'exc': type(ex).__name__, 'msg': str(ex)[:100]}
+            out = {'exc': exc_name(ex), 'msg': str(ex)[:100]}
         ev['out'] = out
         ev['pool'] = {str(g): project(k, idx, lid_of) for g, k in pool.items()}
         events.append(ev)
